@@ -829,7 +829,8 @@ fn parse_json_filter(input: &[u8], output: &mut [u8]) -> Result<(usize, usize), 
 
             eat_colon_with_whitespace(input, &mut inpos)?;
             let limit = read_u64(input, &mut inpos)?;
-            let limit: u32 = limit as u32;
+            // a limit beyond u32 is no limit at all
+            let limit: u32 = u32::try_from(limit).unwrap_or(u32::MAX);
             put(output, LIMIT_OFFSET, limit.to_ne_bytes().as_slice())?;
 
             found |= HAVE_LIMIT;
@@ -876,7 +877,10 @@ fn parse_json_filter(input: &[u8], output: &mut [u8]) -> Result<(usize, usize), 
                 break;
             }
             read_id(input, &mut inpos, &mut output[end..])?;
-            num_ids += 1;
+            num_ids = match num_ids.checked_add(1) {
+                Some(n) => n,
+                None => return Err(InnerError::JsonBadFilter("Too many ids", inpos).into()),
+            };
             end += ID_SIZE;
         }
 
@@ -894,7 +898,10 @@ fn parse_json_filter(input: &[u8], output: &mut [u8]) -> Result<(usize, usize), 
                 break;
             }
             read_pubkey(input, &mut inpos, &mut output[end..])?;
-            num_authors += 1;
+            num_authors = match num_authors.checked_add(1) {
+                Some(n) => n,
+                None => return Err(InnerError::JsonBadFilter("Too many authors", inpos).into()),
+            };
             end += PUBKEY_SIZE;
         }
 
@@ -922,7 +929,10 @@ fn parse_json_filter(input: &[u8], output: &mut [u8]) -> Result<(usize, usize), 
                 );
             }
             put(output, end, (u as u16).to_ne_bytes().as_slice())?;
-            num_kinds += 1;
+            num_kinds = match num_kinds.checked_add(1) {
+                Some(n) => n,
+                None => return Err(InnerError::JsonBadFilter("Too many kinds", inpos).into()),
+            };
             end += KIND_SIZE;
         }
 
